@@ -527,7 +527,7 @@ func (w *World) concreteCheck(fr *FuncResult, args []concreteArg, obs []string, 
 				continue
 			}
 			o := &Obligation{Name: "replay-post", Step: len(e.steps), Reach: t, Goal: "true", Smoke: true}
-			st, _, _, _, _ := solve(context.Background(), e.script(o, false), 10, false, nil)
+			st, _, _, _, _ := solve(context.Background(), e.script(o, false), 3, false, nil)
 			if st == "unsat" {
 				violated = append(violated, "ensures "+en.Src)
 			}
